@@ -118,9 +118,14 @@ impl MulSpecImpl<Decimal> for Uint128 {
 }
 
 // ---- addresses ----
+pub trait StrLike: Sized { spec fn text(&self) -> Seq<char>; }
+impl StrLike for String { open spec fn text(&self) -> Seq<char> { self@ } }
+impl<'a> StrLike for &'a String { open spec fn text(&self) -> Seq<char> { (*self)@ } }
+impl<'a> StrLike for &'a str { open spec fn text(&self) -> Seq<char> { (*self)@ } }
 pub struct Addr(pub String);
 impl Addr {
-    #[verifier::external_body] pub fn unchecked(s: impl Into<String>) -> (r: Addr) { unimplemented!() }
+    // Addr::unchecked(impl Into<String>): the address text is the argument's text
+    #[verifier::external_body] pub fn unchecked<T: StrLike>(s: T) -> (r: Addr) ensures r.0@ == s.text() { unimplemented!() }
     #[verifier::external_body] pub fn as_str(&self) -> (r: &str) ensures r@ == self.0@ { unimplemented!() }
     #[verifier::external_body] pub fn to_string(&self) -> (r: String) ensures r@ == self.0@ { unimplemented!() }
 }
@@ -196,6 +201,9 @@ pub uninterp spec fn bin_of<T>(t: T) -> Binary;
     ensures r is Ok ==> r->Ok_0 == bin_of::<T>(*t)
 //%endif
     { unimplemented!() }
+// String::to_lowercase: an uninterpreted function of the text
+pub uninterp spec fn lower_of(s: Seq<char>) -> Seq<char>;
+pub assume_specification[ str::to_lowercase ](s: &str) -> (r: String) ensures r@ == lower_of(s@);
 // deserialisation is a deterministic (uninterpreted) function of the bytes
 pub uninterp spec fn decode<T>(b: Binary) -> StdResult<T>;
 #[verifier::external_body] pub fn from_binary<T>(b: &Binary) -> (r: StdResult<T>) ensures r == decode::<T>(*b) { unimplemented!() }
